@@ -58,18 +58,31 @@ C04Instance ==
   /\ Check("inst_user_order",
            SelectSeq(PlainPaths, LAMBDA p : p \in UserPathSet) = [i \in 1..Len(UserNodes) |-> UserNodes[i].p])
   /\ Check("inst_full_order", PlainPaths = ExpInstance)
-\* C04 (templates): exactly one jr:template copy per repeat, holding that repeat's subtree
-TRoots == {i \in 1..Len(Obs.inst) : Obs.inst[i].t = "root"}
+\* C04 (templates): exactly one jr:template copy of each repeat; a template region holds exactly the
+\* nodes of that repeat's subtree, in sheet order (a nested repeat may appear there as template and as copy)
+TAttr == {i \in 1..Len(Obs.inst) : Obs.inst[i].ta}
+TRoots == {i \in TAttr : Obs.inst[i].tr = i}
+RECURSIVE Dedup(_, _)
+Dedup(s, seen) == IF s = <<>> THEN <<>>
+                  ELSE IF Head(s) \in seen THEN Dedup(Tail(s), seen)
+                  ELSE <<Head(s)>> \o Dedup(Tail(s), seen \cup {Head(s)})
 C04Templates ==
-  /\ Check("tmpl_only_repeats", \A i \in TRoots : Obs.inst[i].p \in RepeatPaths)
-  /\ Check("tmpl_one_per_repeat", \A p \in RepeatPaths : Cardinality({i \in TRoots : Obs.inst[i].p = p}) = 1)
+  /\ Check("tmpl_only_repeats", \A i \in TAttr : Obs.inst[i].p \in RepeatPaths)
+  /\ Check("tmpl_one_per_repeat", \A p \in RepeatPaths : Cardinality({i \in TAttr : Obs.inst[i].p = p}) = 1)
   /\ Check("tmpl_subtree",
            \A i \in TRoots :
               LET sub == SelectSeq(Obs.inst, LAMBDA n : n.tr = i)
-              IN [j \in 1..Len(sub) |-> sub[j].p] = SubtreeOf(Obs.inst[i].p))
+              IN Dedup([j \in 1..Len(sub) |-> sub[j].p], {}) = SubtreeOf(Obs.inst[i].p))
 \* C04 (body): the user-visible rows in the same order and nesting, each with the prescribed control
 C04Body ==
-  /\ Check("body_sequence", [i \in 1..Len(Obs.body) |-> [tag |-> Obs.body[i].tag, ref |-> Obs.body[i].ref]] = ExpBody)
+  /\ Check("body_sequence", [i \in 1..Len(Obs.body) |-> <<Obs.body[i].tag, Obs.body[i].ref>>]
+                             = [i \in 1..Len(ExpBody) |-> <<ExpBody[i].tag, ExpBody[i].ref>>])
+  /\ Check("body_attrs",
+           \A i \in 1..Len(ExpBody) :
+              LET oa == ToSet(Obs.body[i].attrs)   \* <<name, value>>
+                  ea == ToSet(ExpBody[i].attrs)    \* <<name, value, literal>>
+              IN /\ {a[1] : a \in oa} = {a[1] : a \in ea}
+                 /\ \A a \in ea : a[3] => <<a[1], a[2]>> \in oa)
   /\ Check("body_nesting",
            \A i \in 1..Len(Obs.body) :
               LET par == Obs.body[i].par
@@ -96,8 +109,9 @@ C02Env ==
               Obs.actions[i].abs /\ Obs.actions[i].p \in SeqSet(PlainPaths))
   /\ Check("sibling_unique", NoDup(PlainPaths))
   /\ Check("tmpl_sibling_unique",
-           \A i \in TRoots : LET sub == SelectSeq(Obs.inst, LAMBDA n : n.tr = i)
-                             IN NoDup([j \in 1..Len(sub) |-> sub[j].p]))
+           \A i \in TRoots : LET sub == SelectSeq(Obs.inst, LAMBDA n : n.tr = i /\ ~n.ta)
+                             IN \A a, b \in 1..Len(sub) : (a < b /\ sub[a].p = sub[b].p) =>
+                                   \E c \in a..b : Len(sub[c].p) < Len(sub[a].p))
 
 TEnd == /\ l <= Len(T) /\ Ev.ev = "end"
         /\ Check("no_crash", Ev.status \in {"ok", "pyxform_error"})
